@@ -30,6 +30,7 @@ META = {
                  'scenarios; who-may-write inventory',
 }
 META['text'] += ' pretty_repr reaches the pipeline with the same settings as pformat under changed defaults.'
+META['text'] += " Round 5: (a) pformat text == pprint text == the text the stream denotes, on streams longer than every size constant of the entry module and the renderer; an entry point that walks the stream itself is judged by what it writes; (d) PrettyPrinter(s=v).pformat reaches the pipeline with the settings of pformat(s=v), also for v past the module's size constants."
 
 SETTINGS_MIN = 6
 
